@@ -97,6 +97,31 @@ class Stop:
     )
 
 
+@contract(f"{BGS}:BackgroundService.wait")
+class Wait:
+    """wait() on its own (C10: "returns only after every task it spawned has finished"): a normal return means that every
+    task of the service - those present at the call and one added while it waited - has finished, none of them by an
+    exception or a cancellation, and the service holds no task any more; when it raises the exception group instead, every
+    task that was present at the call has finished and at least one of them did not end normally. Nothing is cancelled."""
+    self_shape = ServiceT
+    modifies = ["self._tasks"]
+    ghost_init = ["late = []", "spawned = list(self._tasks)"]
+    at_await = Stop.at_await
+    raises = dict(BaseExceptionGroup="True")
+    ensures = dict(
+        original_tasks_finished="all(t.done() for t in spawned)",
+        late_tasks_finished_too="all(t.done() for t in late)",
+        returns_normally_only_if_all_ended_normally="all(ended_normally(t) for t in spawned)"
+                                                    " and all(ended_normally(t) for t in late)",
+        no_task_left="len(self._tasks) == 0",
+    )
+    ensures_on_raise = dict(
+        original_tasks_finished="all(t.done() for t in spawned)",
+        raised_only_for_a_failed_or_cancelled_task="not all(ended_normally(t) for t in spawned)"
+                                                   " or not all(ended_normally(t) for t in late)",
+    )
+
+
 # ------------------------------------------------------------------ run(*actors)
 RU = "frequenz.sdk.actor._run_utils"
 ActorExtT = ExtObj("Actor", methods=dict(
